@@ -150,6 +150,7 @@ type Enc struct {
 	dynImpl         map[string]bool
 	qbound          []string // names of the quantifier variables whose body is being evaluated
 	dryCache        []dryCached
+	applyCells      map[string]*Val // captured-variable cells while a closure's contract is applied at a call site
 	recGhost        map[string]bool
 	trustedClauses  []string // "trusted ensures" clauses of the function under verification (not checked)
 	closedFacts     map[string]bool // universally closed side facts already emitted (bound names normalised)
@@ -449,6 +450,17 @@ func (e *Enc) typeAssume(st *State, lf Leaf, t string) {
 			// lengths, capacities and offsets of slice values are non-negative ints
 			e.assertRange("(and (<= 0 " + t + ") (<= " + t + " 9223372036854775807))")
 		}
+		// every slice value is well-formed wherever it is stored: 0 <= off, 0 <= len <= MaxInt64 (len() is an int)
+		if i := strings.LastIndex(lf.Path, "."); i >= 0 {
+			switch lf.Path[i:] {
+			case ".len":
+				e.assertTyping("(and (<= 0 " + t + ") (<= " + t + " 9223372036854775807))")
+			case ".off":
+				e.assertTyping("(<= 0 " + t + ")")
+			case ".cap":
+				e.assertTyping("(<= " + t + " 9223372036854775807)")
+			}
+		}
 	}
 }
 
@@ -550,6 +562,12 @@ func (e *Enc) freshVal(st *State, hint string, t types.Type) *Val {
 			switch lf.Path[strings.LastIndex(lf.Path, "."):] {
 			case ".len", ".off":
 				e.assert("(<= 0 " + n + ")")
+				if strings.HasSuffix(lf.Path, ".len") {
+					// len() is an int
+					e.assert("(<= " + n + " 9223372036854775807)")
+				}
+			case ".cap":
+				e.assert("(<= " + n + " 9223372036854775807)")
 			}
 		}
 	}
@@ -917,6 +935,30 @@ func (e *Enc) mergeVals(hint string, vs []*Val, conds []string) *Val {
 	if (first.Loc != nil || first.Clos != nil) && allSame {
 		return first
 	}
+	// nil and interior pointers of one shape (same container type, field path; 'F' kind) on different paths: one interior
+	// pointer whose object reference depends on the path, 0 standing for nil
+	if lv := e.mergeNullableLocs(hint, vs, conds); lv != nil {
+		return lv
+	}
+	// different closures on different paths: keep the alternatives with their path conditions
+	allClos := true
+	for _, v := range vs {
+		if v.Clos == nil && len(v.Alts) == 0 {
+			allClos = false
+		}
+	}
+	if allClos {
+		out := &Val{T: first.T}
+		for i, v := range vs {
+			if v.Clos != nil {
+				out.Alts = append(out.Alts, ClosAlt{conds[i], v.Clos})
+			}
+			for _, a := range v.Alts {
+				out.Alts = append(out.Alts, ClosAlt{and(conds[i], a.Cond), a.Clos})
+			}
+		}
+		return out
+	}
 	out := &Val{T: first.T}
 	for i := range first.L {
 		same := true
@@ -940,6 +982,44 @@ func (e *Enc) mergeVals(hint string, vs []*Val, conds []string) *Val {
 		out.L = append(out.L, Sc{e.define(hint, first.L[i].S, t), first.L[i].S})
 	}
 	return out
+}
+
+func (e *Enc) mergeNullableLocs(hint string, vs []*Val, conds []string) *Val {
+	var proto *Loc
+	for _, v := range vs {
+		switch {
+		case v.Loc != nil:
+			if v.Clos != nil || v.Loc.Kind != 'F' {
+				return nil
+			}
+			if proto == nil {
+				proto = v.Loc
+			} else if proto.Key != v.Loc.Key || proto.Path != v.Loc.Path || typeStr(proto.T) != typeStr(v.Loc.T) {
+				return nil
+			}
+		case v.Clos == nil && len(v.L) == 1 && v.L[0].T == "0":
+			// the nil pointer
+		default:
+			return nil
+		}
+	}
+	if proto == nil {
+		return nil
+	}
+	refOf := func(v *Val) string {
+		if v.Loc != nil {
+			return v.Loc.Ref
+		}
+		return "0"
+	}
+	t := refOf(vs[len(vs)-1])
+	for j := len(vs) - 2; j >= 0; j-- {
+		t = ite(conds[j], refOf(vs[j]), t)
+	}
+	nl := *proto
+	nl.Ref = e.define(hint+"!iptr", "Int", t)
+	nl.Nullable = true
+	return &Val{T: vs[0].T, Loc: &nl}
 }
 
 // edgeCond returns the condition for taking edge from block b (already encoded, end state st) to succ index si.
